@@ -8,6 +8,8 @@ import kiwipy
 
 CONFIG = {
     'class_invariants': {'asyncio.Future': 'wf_future', 'kiwipy.Future': 'wf_future'},
+    # CB: the done-callback most recently registered on a future and not removed since
+    'ghost_arrays': {'CB': 'val'},
 }
 
 
@@ -86,10 +88,12 @@ def future_exception(self):
 
 @lib('asyncio.Future.add_done_callback', also=['kiwipy.Future.add_done_callback'])
 def future_add_done_callback(self, fn, context=None):
-    """pending: appended to the callback list; done: scheduled with call_soon (not modelled: run later by the loop)"""
+    """pending: appended to the callback list; done: scheduled with call_soon (not modelled: run later by the loop).
+    Ghost CB: the callback most recently registered on the future and not removed since"""
     modifies(contents(self._callbacks))
     raises_nothing()
-    ensures(result is None)
+    ghost_update('CB', self, fn)
+    ensures(result is None and ghost('CB', self) is fn)
     ensures(implies(self._state == 'PENDING', seq(self._callbacks) == old(seq(self._callbacks)) + [fn]))
     ensures(implies(self._state != 'PENDING', seq(self._callbacks) == old(seq(self._callbacks))))
 
@@ -98,6 +102,8 @@ def future_add_done_callback(self, fn, context=None):
 def future_remove_done_callback(self, fn):
     modifies(contents(self._callbacks))
     raises_nothing()
+    ghost_update('CB', self, None)
+    ensures(ghost('CB', self) is None)
     ensures(not contains(seq(self._callbacks), fn))
     ensures(forall(lambda x: implies(x is not fn, contains(seq(self._callbacks), x) == old(contains(seq(self._callbacks), x)))))
 
